@@ -102,6 +102,14 @@ class InternalEnforcer(CoreEnforcer):
 
         old_rules = self.model.get_filtered_policy(sec, ptype, field_index, *field_values)
 
+        # all or nothing: refuse before the adapter or the model is touched when there is nothing to replace,
+        # nothing to put in its place, or a new rule that is already held outside the selection
+        if not old_rules or not new_rules:
+            return False
+        kept = [rule for rule in self.model.get_policy(sec, ptype) if rule not in old_rules]
+        if any(rule in kept for rule in new_rules):
+            return False
+
         if self.adapter and self.auto_save:
             try:
                 old_rules = self.adapter.update_filtered_policies(sec, ptype, new_rules, field_index, *field_values)
